@@ -172,6 +172,7 @@ def decide(rep, prog, cx=None):
     check_find(rep, cx, 'R16.find')
 
     # ---------------- add
+    rep_main, rep = rep, _BufRep()        # (reported below, after the shape-independent formulation had its say)
     I, outs = cx.run('session_table_add', lambda st: [Val(tp, T0), Val(mp, M0), Val(u16, GEN), Val(u16, SEQ)])
     ubs(I, 'R16.add')
     kinds = {'hit': 0, 'insert': 0, 'full': 0}
@@ -229,6 +230,27 @@ def decide(rep, prog, cx=None):
             wrote = any(kk[0] for kk in T.cells)
             if kind == 'continue':
                 rep.check(not wrote, 'R16.add', 'insert|continue-no-store', 'the slot search writes into an entry and keeps searching', function='session_table_add', file=fnf)
+
+    buf_add, rep = rep, rep_main
+    if buf_add.failed():
+        # the obligations above read the lookup-then-insert shape off inductive loop summaries; a differently organised add
+        # (one fused pass remembering the first free slot) gets the shape-independent formulation on the unrolled loops
+        try:
+            conc = add_concrete(cx)
+        except Exception as e_:
+            conc = None
+            rep.analysed['add_unrolled'] = 'not available: %s' % str(e_)[:120]
+        if conc is not None and all(ok_ for ok_, _k, _m in conc):
+            for ok_, key_, _m in conc:
+                rep.check(True, 'R16.add', key_, '', function='session_table_add', file=fnf)
+            rep.analysed['add_formulation'] = 'unrolled (the summarised formulation did not apply: %d obligations)' % len(buf_add.failed())
+        else:
+            buf_add.flush(rep)
+            for ok_, key_, m_ in (conc or []):
+                if not ok_:
+                    rep.fail('R16.add', key_, m_, function='session_table_add', file=fnf)
+    else:
+        buf_add.flush(rep)
 
     # ---------------- remove
     I, outs = cx.run('session_table_remove', lambda st: [Val(tp, T0), Val(mp, M0), Val(u16, GEN)])
@@ -438,6 +460,178 @@ def decide(rep, prog, cx=None):
     expiry(rep, cx)
     rep.analysed.update({'capacity': cx.cap, 'entry_size': cx.esz, 'add_outcomes': kinds})
 
+
+
+class _BufRep(object):
+    """Collects the outcome of a group of obligations so that a second, shape-independent formulation can be tried before
+    anything is reported."""
+
+    def __init__(self):
+        self.items = []
+
+    def check(self, ok, rule, key, msg, **kw):
+        self.items.append((bool(ok), rule, key, msg, kw))
+
+    def fail(self, rule, key, msg, **kw):
+        self.items.append((False, rule, key, msg, kw))
+
+    def ok(self, rule, **kw):
+        self.items.append((True, rule, None, '', kw))
+
+    def failed(self):
+        return [i for i in self.items if not i[0]]
+
+    def flush(self, rep):
+        for ok, rule, key, msg, kw in self.items:
+            if key is None:
+                rep.ok(rule, **kw)
+            else:
+                rep.check(ok, rule, key, msg, **kw)
+
+
+def add_concrete(cx):
+    """session_table_add decided without assumptions about its shape (lookup first and a second pass, or one fused pass that
+    remembers the first free slot; index or pointer walk): the 16-slot loops are unrolled concretely on a fully symbolic table.
+      (A) every outcome is one of: NULL with the table untouched and every slot known valid; the pointer to a slot known to be
+          valid and to hold the key, with only sequence number and activity stamp written and count unchanged (refresh); the
+          pointer to a slot known to have been free, now valid with the key, the sequence number, incomplete, both stamps the
+          current clock, count + 1, all-complete false, nothing else written (insert);
+      (B) with slot j valid and holding the key (j = 0..15) no outcome inserts and none returns NULL: a known session is refreshed.
+    -> list of (ok, key, msg); raises AnalysisBroken when the loops were summarised instead of unrolled."""
+    tp, mp, u16 = cx.ty('session_table *'), cx.ty('const uint8_t *'), cx.ty('unsigned short')
+    T0, M0 = ('ptr', 'T', ZERO), ('ptr', 'MAC', ZERO)
+    out = []
+
+    def go(extra=None):
+        E = Engine(cx.prog, port=PortModel())
+        E.loop_info = {}
+        E.max_loop_states = 400
+
+        def setup(I, st):
+            t = mk_obj(st, 'T', cx.trec.size, kind='heap', default='sym', heap=True)
+            t.cells[((), cx.toff('count'))] = (1, CNT)
+            mk_obj(st, 'MAC', 6, kind='heap', default='sym')
+            if extra:
+                extra(st)
+            return [Val(tp, T0), Val(mp, M0), Val(u16, GEN), Val(u16, SEQ)]
+        I, outs = run_entry(cx.prog, AUTOMATA_UNIT, 'session_table_add', setup, engine=E, name='session_table_add[unrolled]')
+        if I.loop_info:
+            raise AnalysisBroken('session_table_add: a scan was summarised, not unrolled')
+        return I, outs
+
+    def slot_of(st, r):
+        if r[0] != 'ptr' or r[1] != 'T':
+            return None
+        o = st.canon(r[2])
+        if not is_const(o):
+            return None
+        off = o[1] - cx.eoff
+        if off < 0 or off % cx.esz or off // cx.esz >= cx.cap:
+            return None
+        return off // cx.esz
+
+    def written(st, preset=()):
+        T = st.objs['T']
+        return sorted(k[1] for k in T.cells if not k[0] and k != ((), cx.toff('count')) and k[1] not in preset), [k for k in T.cells if k[0]]
+
+    def classify(st, v, preset=()):
+        """-> ('full'|'refresh'|'insert'|'bad', slot, [problems])"""
+        r = st.canon(v.t)
+        cnt = cx.tfield(st, 'count')
+        wr, symw = written(st, preset)
+        probs = []
+        if symw:
+            probs.append('stores at computed offsets %s' % symw[:2])
+        if r == ZERO:
+            if wr or not st.same(cnt, CNT):
+                probs.append('returns NULL but wrote table bytes %s / count %s' % (wr[:4], short(cnt)))
+            for i in range(cx.cap):
+                if st.dom(cx.field(st, C(cx.eoff + i * cx.esz), 'valid', 1)).lo < 1:
+                    probs.append('returns NULL although slot %d is not known to be in use' % i)
+                    break
+            return 'full', None, probs
+        i = slot_of(st, r)
+        if i is None:
+            return 'bad', None, ['returns %s' % short(r)]
+        base = C(cx.eoff + i * cx.esz)
+        lo, hi = cx.eoff + i * cx.esz, cx.eoff + (i + 1) * cx.esz
+        outside = [o for o in wr if not (lo <= o < hi) and o != cx.toff('all_complete')]
+        if outside:
+            probs.append('writes outside the returned slot (offsets %s)' % outside[:4])
+        vwritten = (lo + cx.foff('valid')) in wr
+        la = cx.field(st, base, 'last_activity_ts', 8)
+        if not (la[0] == 'sym' and str(la[1]).startswith('clock.s.')):
+            probs.append('activity stamp is %s, not the current clock' % short(la))
+        if not st.same(cx.field(st, base, 'seq_number', 2), SEQ):
+            probs.append('sequence number not stored')
+        if not vwritten:
+            # refresh: the slot is known valid with the key, key fields untouched, count / flag untouched
+            if not cx.key_matches(st, base):
+                probs.append('slot %d is returned without valid && address && generation having been established' % i)
+            keyw = [o for o in wr if lo + cx.foff('mapper_mac') <= o < lo + cx.foff('mapper_mac') + 6 or o == lo + cx.foff('generation') or o == lo + cx.foff('complete')]
+            if keyw:
+                probs.append('refresh rewrites key / completion fields (offsets %s)' % keyw)
+            if not st.same(cnt, CNT) or cx.toff('all_complete') in wr:
+                probs.append('refresh changes count (%s) or the all-complete flag' % short(cnt))
+            return 'refresh', i, probs
+        # insert
+        T = st.objs['T']
+        was = ('in', 'T', lo + cx.foff('valid'))
+        if st.dom(was).hi != 0:
+            probs.append('slot %d is overwritten without having been established to be free' % i)
+        if not cx.key_matches(st, base):
+            probs.append('the new entry is not valid with the requested address and generation')
+        if cx.field(st, base, 'complete', 1) != ZERO:
+            probs.append('the new entry is not marked incomplete')
+        cr = cx.field(st, base, 'created_ts', 8)
+        if not (cr[0] == 'sym' and str(cr[1]).startswith('clock.s.')):
+            probs.append('creation stamp is %s' % short(cr))
+        if not st.same(cnt, ('add', CNT, C(1))):
+            probs.append('count becomes %s, not count + 1' % short(cnt))
+        if cx.tfield(st, 'all_complete') != ZERO:
+            probs.append("'all complete' stays %s" % short(cx.tfield(st, 'all_complete')))
+        return 'insert', i, probs
+
+    I, outs = go()
+    seen = {'full': 0, 'refresh': 0, 'insert': 0}
+    for ob in I.obs.values():
+        if not ob.ok:
+            out.append((False, '%s|%s' % (ob.fn, ob.kind), ob.msg))
+    for st, v in outs:
+        kind, i, probs = classify(st, v)
+        if kind in seen:
+            seen[kind] += 1
+        for p_ in probs:
+            out.append((False, 'unrolled|%s|%s' % (kind, i), 'session_table_add (%s%s): %s' % (kind, '' if i is None else ', slot %d' % i, p_)))
+        if not probs:
+            out.append((True, 'unrolled|%s|%s' % (kind, i), ''))
+    for k_, n_ in seen.items():
+        out.append((n_ > 0, 'unrolled|paths|' + k_, 'session_table_add has no "%s" outcome' % k_))
+    for j in range(cx.cap):
+        base = cx.eoff + j * cx.esz
+        preset = set([base + cx.foff('valid'), base + cx.foff('generation'), base + cx.foff('generation') + 1] + [base + cx.foff('mapper_mac') + b for b in range(6)])
+
+        def extra(st, base=base):
+            t = st.objs['T']
+            t.cells[((), base + cx.foff('valid'))] = (1, C(1))
+            for b in range(6):
+                t.cells[((), base + cx.foff('mapper_mac') + b)] = (1, ('in', 'MAC', b))
+            t.cells[((), base + cx.foff('generation'))] = (2, GEN)
+        I2, outs2 = go(extra)
+        bad = []
+        for st, v in outs2:
+            r = st.canon(v.t)
+            i = slot_of(st, r)
+            if r == ZERO:
+                bad.append('returns NULL')
+            elif i is None:
+                bad.append('returns %s' % short(r))
+            else:
+                b2 = C(cx.eoff + i * cx.esz)
+                if not st.same(cx.tfield(st, 'count'), CNT) or not cx.key_matches(st, b2):
+                    bad.append('creates or returns slot %d (count %s)' % (i, short(cx.tfield(st, 'count'))))
+        out.append((not bad, 'unrolled|known|slot%d' % j, 'with slot %d valid and holding the key, add does not simply refresh a session of that key: %s' % (j, '; '.join(bad[:3]))))
+    return out
 
 def check_find(rep, cx, rule):
     """The lookup returns an entry only if it is valid and address + generation are equal, and NULL only if no entry is.
